@@ -19,7 +19,16 @@ pub const OTHER_NWKSKEY: [u8; 16] = [0x5a; 16];
 pub const DEVADDR: u32 = 0x2601_1234;
 pub const DEVEUI: [u8; 8] = [1, 2, 3, 4, 5, 6, 7, 8];
 /// Second credential set (a device re-provisioned for another join server): (DevEUI, JoinEUI, root key)
+/// Credential sets: bit 0 selects the identifiers (and their base key), bit 1 another AppKey for the same
+/// identifiers (an application that corrects a mis-provisioned key).
 pub fn creds(k: u8) -> ([u8; 8], [u8; 8], [u8; 16]) {
+    if k & 2 != 0 {
+        let (d, a, mut key) = creds(k & 1);
+        for b in key.iter_mut() {
+            *b ^= 0x5A;
+        }
+        return (d, a, key);
+    }
     if k == 0 { (DEVEUI, APPEUI, APPKEY) } else { ([0xB1, 0xB2, 0xB3, 0xB4, 0xB5, 0xB6, 0xB7, 0xB8], [0x0B; 8], [0xB0, 0x0B, 0x1E, 0x5A, 0x42, 0x13, 0x37, 0x99, 0x01, 0x23, 0x45, 0x67, 0x89, 0xAB, 0xCD, 0xEF]) }
 }
 pub const APPEUI: [u8; 8] = [0x70, 0xb3, 0xd5, 0x7e, 0xd0, 0, 0, 0x11];
